@@ -15,7 +15,7 @@ const Scenario scen_heap = { "heap", NOOPS_, 1, heap_gen_none, heap_exec_none, "
 #else
 
 enum { H_NEWNODE, H_NEWREF, H_NEWBOX, H_NEWCONT, H_LINK, H_UNLINK, H_SLOTSET, H_SLOTCLR,
-       H_TLSSET, H_TLSREM, H_DEL, H_BURST, H_STOP, H_START, H_CHAIN, H_BADFREE, H_COPY, H_REGHOLD, H_NOPS };
+       H_TLSSET, H_TLSREM, H_DEL, H_BURST, H_STOP, H_START, H_CHAIN, H_BADFREE, H_COPY, H_REGHOLD, H_BADNEW, H_NOPS };
 static const OpInfo OPS[H_NOPS] = {
   [H_NEWNODE] = { "newnode", 2 },   /* slot cls */
   [H_NEWREF]  = { "newref", 3 },    /* slot target cls */
@@ -34,6 +34,7 @@ static const OpInfo OPS[H_NOPS] = {
   [H_CHAIN]   = { "chain", 2 },     /* slot n */
   [H_BADFREE] = { "badfree", 2 },   /* kind x */
   [H_COPY]    = { "copy", 2 },      /* slot obj */
+  [H_BADNEW]  = { "badnew", 1 },    /* kind: a constructor call that raises (the allocation is already registered) */
   [H_REGHOLD] = { "reghold", 1 },   /* n: a fresh object referenced from a callee-saved register only while n allocations run */
 };
 
@@ -609,6 +610,22 @@ static __attribute__((noinline)) void op_reghold(const Op* op) {
 static void op_reghold(const Op* op) { (void)op; }
 #endif
 
+/* a constructor that raises: new() has already allocated and registered the object, which is then garbage the program never
+ * sees; later collections and the teardown must reclaim it (and whatever it already owns) without incident */
+static void op_badnew(const Op* op) {
+  if (g_stopped) return;
+  int kind = (int)(((op->a[0] % 4) + 4) % 4);
+  var volatile ex = NULL;
+  switch (kind) {
+    case 0: try { new(Range, $I(1), $I(2), $I(3), $I(4)); } catch (e) { ex = e; } break;        /* too many arguments */
+    case 1: try { new(Table, Int, Int, $I(1)); } catch (e) { ex = e; } break;                    /* odd number of key/value arguments */
+    case 2: try { new_with(Slice, tuple()); } catch (e) { ex = e; } break;                        /* too few arguments */
+    default: try { new(Tree, Int); } catch (e) { ex = e; } break;                                 /* value type missing */
+  }
+  if (ex is NULL) HV("C12", "C12:no-exception:bad-constructor", "a constructor with invalid arguments raised nothing");
+  stat_add("heap.failed_constructor", 1);
+}
+
 /* C19: deallocating operations applied to stack / static objects */
 static void op_badfree(const Op* op) {
   int kind = (int)(((op->a[0] % 12) + 12) % 12);
@@ -687,6 +704,7 @@ static void heap_execute(const Plan* p) {
       case H_BADFREE: op_badfree(op); break;
       case H_COPY: op_copy(op); break;
       case H_REGHOLD: op_reghold(op); break;
+      case H_BADNEW: op_badnew(op); break;
       default: break;
     }
     if (op->fault == 1) { progress(i, prop, "burst"); do_burst(10); }
@@ -788,7 +806,7 @@ static void heap_generate(Plan* p, Rng* r) {
     else if (d < 94) plan_add(p, H_BURST, 0, 0, a, 0, 0, 0, 0, 0);
     else if (d < 96) { if (allow_stop) { plan_add(p, stopped ? H_START : H_STOP, 0, 0, 0, 0, 0, 0, 0, 0); stopped = !stopped; } else plan_add(p, H_BURST, 0, 0, a, 0, 0, 0, 0, 0); }
     else if (d < 97) plan_add(p, H_COPY, 0, fault, a, b, 0, 0, 0, 0);
-    else if (d < 98) plan_add(p, H_REGHOLD, 0, 0, a, 0, 0, 0, 0, 0);
+    else if (d < 98) plan_add(p, (focus == 6 || focus == 5) ? H_BADNEW : H_REGHOLD, 0, 0, a, 0, 0, 0, 0, 0);
     else { int64_t n = rng_chance(r, 1, 4) ? 1000 + rng_below(r, 9000) : 5 + rng_below(r, 300); if (focus == 17) n = 5 + rng_below(r, 200); plan_add(p, H_CHAIN, 0, 0, a, n, 0, 0, 0, 0); }
   }
 }
@@ -804,6 +822,18 @@ static void heap_execute_entry(const Plan* p) {
   call(t);
   join(t);
   del_raw(t);
+  /* roots outlive their thread's collector by design: whoever joins releases them, and that must be their one finalisation */
+  progress(p->nops, g_focus == 5 ? "C05" : "C06", "del_root-after-thread-exit");
+  for (int i = 0; i < g_nobj; i++) if (O[i].alive && O[i].cls == CL_ROOT) {
+    /* a root that owns managed objects (Box, Range, Slice) is left alone: the teardown has already swept what it owned, which is
+     * how the shipped design treats the referents of surviving roots, and deleting it now would be the program's double delete */
+    if (O[i].kind == HK_BOX || O[i].kind == HK_RANGE || O[i].kind == HK_SLICE) continue;
+    var q = O[i].ptr;
+    if (O[i].freed || O[i].finalised) LV(i, "C06:root-released-by-teardown", "root object #%d (%s) was released by its thread's teardown although nobody called del_root", i, HKNAME[O[i].kind]);
+    kill_obj(i);
+    del_root(q);
+    stat_add("heap.del_root_after_thread_exit", 1);
+  }
   heap_final_checks(p);
 }
 
